@@ -165,7 +165,16 @@ def lnot : List Val → R
   | [.bool b] => .ok (.bool (!b))
   | _ => raise
 
-/-! ## data access -/
+/-! ## data access
+
+DISCLOSURE: for the path-taking functions the specification is NOT independent of the model. `get`,
+`getall`, `setOrDel` below are thin wrappers around `pathFirst`/`pathGet`/`pathSet` of `Asm/Data.lean` —
+the same definitions the model evaluates — so `get_spec … del_spec` (Props/C20.lean) say that the asm
+functions pass the right path, data and value to jp and return what they should (null for no match, the
+local data after a write), not that `pathFirst`/`pathSet` are what jp.First/jp.SetOne compute. That tie is
+(a) the JSONPath families of this repository (C05/C11 for reading, C13 for jp.Set/Del), which specify and
+check the jp engine itself, and (b) this family's correspondence run (model = implementation on every
+case, simple paths). -/
 
 /-- `get`: the first value the path selects in the data, null when there is none -/
 def get (env : Env) (h : Heap) (p : Path) (data : Val) : R :=
